@@ -170,6 +170,9 @@ func init() {
 		ex.records = append(ex.records, fmt.Sprintf("%s %x", name, bs))
 		return nil
 	})
+	setIntrinsic(hpath+"vSameState", func(ex *Exec, fn *ssa.Function, a []Value) Value {
+		return ex.sameState(a[0], a[1], map[[2]interface{}]bool{}, 0)
+	})
 	setIntrinsic(hpath+"vSymbolic", func(ex *Exec, fn *ssa.Function, a []Value) Value { return trueT })
 	setIntrinsic(hpath+"vTrace", func(ex *Exec, fn *ssa.Function, a []Value) Value {
 		ex.tracing = true
@@ -517,3 +520,149 @@ func (ex *Exec) fmtWalk(v Value, depth int) {
 }
 
 var errorIface = types.Universe.Lookup("error").Type().Underlying().(*types.Interface)
+
+// sameState: structural equality of two object graphs, every field included (exported or not): scalars by value,
+// strings, slices element-wise (nil and empty are different, as for reflect.DeepEqual), maps entry-wise, pointers
+// by the equality of what they point to, interface values by dynamic type and value.
+func (ex *Exec) sameState(a, b Value, seen map[[2]interface{}]bool, depth int) *Term {
+	if depth > 60 {
+		return trueT
+	}
+	switch x := a.(type) {
+	case nil:
+		return mkBool(b == nil)
+	case *Term:
+		y, ok := b.(*Term)
+		if !ok || x.S != y.S {
+			return falseT
+		}
+		if x.S.K == SFP {
+			return Eq(FToBits(x), FToBits(y))
+		}
+		return Eq(x, y)
+	case *StrV:
+		y, ok := b.(*StrV)
+		if !ok {
+			return falseT
+		}
+		return strEq(x, y)
+	case *PtrV:
+		y, ok := b.(*PtrV)
+		if !ok {
+			return falseT
+		}
+		if x.P == nil || y.P == nil {
+			return mkBool(x.P == nil && y.P == nil)
+		}
+		if x.P == y.P {
+			return trueT
+		}
+		k := [2]interface{}{x.P, y.P}
+		if seen[k] {
+			return trueT
+		}
+		seen[k] = true
+		return ex.sameState(x.P.V, y.P.V, seen, depth+1)
+	case *StructV:
+		y, ok := b.(*StructV)
+		if !ok || len(x.F) != len(y.F) {
+			return falseT
+		}
+		acc := trueT
+		for i := range x.F {
+			acc = And(acc, ex.sameState(x.F[i].V, y.F[i].V, seen, depth+1))
+		}
+		return acc
+	case *ArrV:
+		y, ok := b.(*ArrV)
+		if !ok {
+			return falseT
+		}
+		n, _ := constInt(x.N)
+		m, _ := constInt(y.N)
+		if n != m {
+			return falseT
+		}
+		acc := trueT
+		for i := 0; i < n; i++ {
+			acc = And(acc, ex.sameState(x.cell(i).V, y.cell(i).V, seen, depth+1))
+		}
+		return acc
+	case *SliceV:
+		y, ok := b.(*SliceV)
+		if !ok || (x.Arr == nil) != (y.Arr == nil) {
+			return falseT
+		}
+		if x.Arr == nil {
+			return trueT
+		}
+		n, ok1 := constInt(x.Len)
+		m, ok2 := constInt(y.Len)
+		if !ok1 || !ok2 || n != m {
+			return falseT
+		}
+		acc := trueT
+		for i := 0; i < n; i++ {
+			acc = And(acc, ex.sameState(x.Arr.cell(x.Off+i).V, y.Arr.cell(y.Off+i).V, seen, depth+1))
+		}
+		return acc
+	case *IfaceV:
+		y, ok := b.(*IfaceV)
+		if !ok || (x.T == nil) != (y.T == nil) {
+			return falseT
+		}
+		if x.T == nil {
+			return trueT
+		}
+		xr, ok1 := x.V.(*RTV)
+		yr, ok2 := y.V.(*RTV)
+		if ok1 || ok2 {
+			return mkBool(ok1 && ok2 && types.Identical(xr.T, yr.T))
+		}
+		if !types.Identical(x.T, y.T) {
+			return falseT
+		}
+		return ex.sameState(x.V, y.V, seen, depth+1)
+	case *MapV:
+		y, ok := b.(*MapV)
+		if !ok || (x == nil) != (y == nil) {
+			return falseT
+		}
+		if x == nil || x == y {
+			return trueT
+		}
+		if len(x.E) != len(y.E) {
+			return falseT
+		}
+		acc := trueT
+		for _, e := range x.E {
+			var f *MapEntry
+			for _, c := range y.E {
+				if ke := ex.keyEq(c.K, e.K); ke.IsConst() && ke.Bool() {
+					f = c
+				}
+			}
+			if f == nil {
+				return falseT
+			}
+			acc = And(acc, ex.sameState(e.C.V, f.C.V, seen, depth+1))
+		}
+		return acc
+	case *RV:
+		y, ok := b.(*RV)
+		if !ok || (x.T == nil) != (y.T == nil) {
+			return falseT
+		}
+		if x.T == nil {
+			return trueT
+		}
+		return And(mkBool(types.Identical(x.T, y.T)), ex.sameState(x.val(), y.val(), seen, depth+1))
+	case *ChanV:
+		y, ok := b.(*ChanV)
+		return mkBool(ok && x == y)
+	case *ClosureV:
+		y, ok := b.(*ClosureV)
+		return mkBool(ok && (x == nil) == (y == nil))
+	}
+	return mkBool(a == b)
+}
